@@ -1,4 +1,5 @@
 import Qryn.Proofs.Cursor
+import Qryn.Proofs.Assembly
 /-! # C17 — Prometheus and Pyroscope label matchers select exactly the matching series
 
 Property theorems only.
@@ -250,5 +251,105 @@ theorem seek_as_written_faults_on_empty : (runW (init []) [.seek 0]).2 = [.fault
 theorem seek_as_written_moves_backwards :
     (runW (init [⟨1, 10⟩, ⟨3, 11⟩, ⟨5, 12⟩, ⟨7, 13⟩]) [.next, .next, .next, .seek 0, .at]).2
       = [.bool true, .bool true, .bool true, .bool true, .sample ⟨1, 10⟩] := by decide
+
+/-! ## Part 2 — series assembly (`reader/service/promQueryable.go`, the row loop of `CLokiQuerier.Select`)
+
+Model: `Qryn.Read.Assembly.assemble` (one `step` per scanned row). Hypothesis `Grouped rows`: fingerprints
+ascending — the `ORDER BY fingerprint ASC, …` of the sample query; `SortedRows rows` adds "timestamps
+ascending inside one fingerprint". -/
+section Assembly
+open Qryn.Read.Assembly
+
+/-- **assembly_preserves_rows.** For *every* row list (no order assumed) the loop does not fault, never
+    makes an empty series, and the series laid end to end — each sample under the fingerprint of the series
+    it was put in — are exactly the scanned rows, in scan order: every row appears exactly once, in a series
+    of its own fingerprint, and no sample is invented or reordered. -/
+theorem assembly_preserves_rows (rows : List Row) :
+    ∃ res, assemble rows = some res ∧ flat res = rows ∧ ∀ s ∈ res, s.samples ≠ [] := by
+  obtain ⟨st', h, hg, hf, _⟩ := scan_spec rows ⟨[], 0⟩ ⟨by intro s h; simp at h, by intro s h; simp at h⟩
+  exact ⟨st'.series, by simp [assemble, h], by simpa [flat] using hf, hg.nonempty⟩
+
+/-- **series_assembly.** When the rows arrive with ascending fingerprints, the loop yields, without
+    faulting: series with strictly ascending — hence pairwise distinct — fingerprints (each fingerprint
+    yields exactly one series); exactly the fingerprints that occur in the rows; and each series holds
+    exactly the rows of its own fingerprint, in their order of arrival. -/
+theorem series_assembly (rows : List Row) (hs : Grouped rows) :
+    ∃ res, assemble rows = some res ∧
+      (res.map (·.fp)).Pairwise (· < ·) ∧
+      (∀ f, f ∈ res.map (·.fp) ↔ f ∈ rows.map (·.fp)) ∧
+      (∀ s ∈ res, s.samples = (rows.filter (fun r => r.fp == s.fp)).map sampleOf) := by
+  obtain ⟨st', h, hg, hf, hstrict⟩ :=
+    scan_spec rows ⟨[], 0⟩ ⟨by intro s h; simp at h, by intro s h; simp at h⟩
+  have hflat : flat st'.series = rows := by simpa [flat] using hf
+  have hst : StrictFps st'.series := hstrict (by simpa [flat] using hs) (by simp [StrictFps])
+  have hnd : (st'.series.map (·.fp)).Nodup :=
+    List.Pairwise.imp (fun {a b} (h : a < b) => Nat.ne_of_lt h) hst
+  refine ⟨st'.series, by simp [assemble, h], hst, ?_, ?_⟩
+  · intro f
+    constructor
+    · intro hf'
+      obtain ⟨s, hs', rfl⟩ := List.mem_map.mp hf'
+      obtain ⟨r, hr, hrf⟩ := mem_flat_of_mem hs' (hg.nonempty s hs')
+      rw [hflat] at hr
+      exact List.mem_map.mpr ⟨r, hr, hrf⟩
+    · intro hf'
+      obtain ⟨r, hr, rfl⟩ := List.mem_map.mp hf'
+      rw [← hflat] at hr
+      simp only [flat, List.mem_flatMap, rowsOf, List.mem_map] at hr
+      obtain ⟨s, hs', x, _, rfl⟩ := hr
+      exact List.mem_map.mpr ⟨s, hs', rfl⟩
+  · intro s hs'
+    have := flatMap_select st'.series s.fp hnd s hs' rfl
+    rw [← hflat]
+    simp only [flat, List.filter_flatMap]
+    rw [this, rowsOf_map_sampleOf]
+
+/-- **series_samples_sorted_in_range.** With rows ordered by (fingerprint, timestamp) every assembled series
+    has ascending timestamps — the hypothesis `Sorted` of the cursor theorems, so `seek_contract` applies to
+    every series `Select` hands out — and if all rows lie in `[lo, hi]` so do all samples of all series. -/
+theorem series_samples_sorted_in_range (rows : List Row) (hs : SortedRows rows) (lo hi : Int)
+    (hr : ∀ r ∈ rows, lo ≤ r.ts ∧ r.ts ≤ hi) :
+    ∃ res, assemble rows = some res ∧
+      (∀ s ∈ res, Sorted s.samples) ∧ (∀ s ∈ res, ∀ x ∈ s.samples, lo ≤ x.ts ∧ x.ts ≤ hi) := by
+  obtain ⟨res, hres, _, _, hsam⟩ := series_assembly rows hs.grouped
+  refine ⟨res, hres, ?_, ?_⟩
+  · intro s hs'
+    rw [hsam s hs']
+    apply sorted_of_pairwise
+    rw [List.pairwise_map]
+    have hsub : (rows.filter (fun r => r.fp == s.fp)).Pairwise RowLe :=
+      List.Pairwise.sublist List.filter_sublist hs
+    have hall : ∀ r ∈ rows.filter (fun r => r.fp == s.fp), r.fp = s.fp := by
+      intro r hr'; simpa using (List.mem_filter.mp hr').2
+    clear hsam
+    generalize rows.filter (fun r => r.fp == s.fp) = l at hsub hall
+    induction hsub with
+    | nil => exact List.Pairwise.nil
+    | cons hab _ ih =>
+      refine List.Pairwise.cons ?_ (ih (fun r hr' => hall r (List.mem_cons_of_mem _ hr')))
+      intro b hb
+      have h1 := hall _ List.mem_cons_self
+      have h2 := hall b (List.mem_cons_of_mem _ hb)
+      rcases hab b hb with h | ⟨_, h⟩
+      · omega
+      · exact h
+  · intro s hs' x hx
+    rw [hsam s hs'] at hx
+    obtain ⟨r, hr', rfl⟩ := List.mem_map.mp hx
+    exact hr r (List.mem_filter.mp hr').1
+
+/-- the grouping depends on the order: with rows *not* ordered by fingerprint the same loop makes two series
+    for fingerprint 1 (kernel-checked) — `Grouped` is a real hypothesis, supplied by `ORDER BY fingerprint` -/
+theorem assembly_needs_fingerprint_order :
+    (assemble [⟨1, 10, 1⟩, ⟨2, 20, 1⟩, ⟨1, 11, 2⟩]).map (·.map (·.fp)) = some [1, 2, 1] := by decide
+
+-- non-vacuity
+example : SortedRows [⟨1, 10, 1⟩, ⟨1, 11, 1⟩, ⟨1, 12, 5⟩, ⟨4, 20, 0⟩] := by
+  unfold SortedRows RowLe; decide
+example : assemble [⟨1, 10, 1⟩, ⟨1, 11, 1⟩, ⟨1, 12, 5⟩, ⟨4, 20, 0⟩]
+    = some [⟨1, [⟨1, 10⟩, ⟨1, 11⟩, ⟨5, 12⟩]⟩, ⟨4, [⟨0, 20⟩]⟩] := by decide
+example : assemble [] = some [] := by decide
+
+end Assembly
 
 end Qryn.C17
